@@ -5,7 +5,7 @@
     source are regenerated into Gen/FsWalk_gen.v on every run and the premises [backend_keys_ok], [walk_ok] (and
     the chain parameters) are discharged for them by kernel-checked instance obligations in checks/c19.py. *)
 From Coq Require Import List NArith Bool Permutation.
-From SV Require Import SM.FsChain SM.FsChainProofs SM.FsChainRel SM.FsChainWitness SM.FsChainRaw SM.FsChainCompose SM.FsChainComplete SM.FsChainNorm SM.FsChainForms SM.FsChainFormsProofs SM.FsChainWhole SM.FsChainWholeProofs SM.FsChainRead SM.FsChainReadProofs SM.FsChainMixed SM.FsChainMixedProofs SM.FsChainAdd SM.FsChainAddProofs SM.FsChainWalkGen SM.FsChainNoise.
+From SV Require Import SM.FsChain SM.FsChainProofs SM.FsChainRel SM.FsChainWitness SM.FsChainRaw SM.FsChainCompose SM.FsChainComplete SM.FsChainNorm SM.FsChainForms SM.FsChainFormsProofs SM.FsChainWhole SM.FsChainWholeProofs SM.FsChainRead SM.FsChainReadProofs SM.FsChainMixed SM.FsChainMixedProofs SM.FsChainAdd SM.FsChainAddProofs SM.FsChainWalkGen SM.FsChainNoise SM.FsChainProperty SM.FsChainPropertyProofs.
 Import ListNotations.
 Open Scope N_scope.
 
@@ -653,3 +653,20 @@ Example c19_spelling_examples :
   /\ spells [100; 92; 46; 92; 101; 47; 47] [100; 47; 101] /\ spells [46] [] /\ spells [46; 47] [] /\ spells [] []
   /\ ~ spells [100; 47; 46; 46] [].
 Proof. exact spells_examples. Qed.
+
+(** ** Round 4: the property as one statement. *)
+
+(** [source_cfg] is everything the translator reads off filesys.py / vpk.py (three backend records, the VPK content
+    expressions and reader, the directory backend's operations and listed-name shape, add_sys's guard and branch actions,
+    the _file_exists mode, the de-duplication mode / key / relative-name mode); [source_ok] the conjunction of the named
+    recognisers.  For every configuration that passes: [backends_agree] (sentence 1: same names, same bytes, case / slash
+    kind / redundant segments insignificant, the directory for exact-case names), [walks_exact] (sentence 2: a walk lists
+    exactly the files inside the folder, the empty folder all, every listed name looks up to that file) and
+    [chains_honour_priority] (sentence 3: after any sequence of add_sys calls every lookup form is the specification over
+    the members in priority order; the de-duplicated walk - members under any spelling of their subfolder, directories
+    included - lists each name once, with the file the lookup returns).  The check instantiates it at today's generated
+    configuration on every run. *)
+Theorem c19_property : forall s, source_ok s = true -> property_holds s.
+Proof. exact property_holds_for_every_ok_source. Qed.
+Example c19_property_hypotheses_satisfiable : source_ok witness_cfg = true.
+Proof. exact source_ok_satisfiable. Qed.
